@@ -1882,6 +1882,12 @@ Proof.
   apply Qplus_le_compat; [|apply Qle_refl]. apply Qopp_le_compat. exact Hd.
 Qed.
 
+(* the spec's integerisation clause is the function [integerise]: an exactly recomputed cell is accepted
+   iff the kernel's integer is floor((gamma - med) * scale + 1/2) *)
+Lemma int_cell_exact med scale dist x :
+  int_cell_ok ((- dist - med) * scale, (- dist - med) * scale, x)%Q = (x =? integerise med scale dist).
+Proof. unfold int_cell_ok, integerise. cbn [fst snd]. rewrite Z.eqb_refl. reflexivity. Qed.
+
 (* ================================================================== the reference's polynomials enumerate column tuples *)
 (* for query column i: (similarity value, multiplicity) of every unique target column *)
 Definition wcol (c : call) (i : nat) : list (Z * Z) :=
